@@ -696,6 +696,9 @@ impl<B: BufRead> Reader<B> {
     #[allow(clippy::cognitive_complexity)]
     pub fn read_event(&mut self) -> Result<Event, Error> {
         loop {
+            #[cfg(feature = "verif-hooks")]
+            crate::verif_hooks::FIBEX_XML_EVENTS
+                .fetch_add(1, std::sync::atomic::Ordering::Relaxed);
             match self.xml_reader.read_event(&mut self.buf)? {
                 XmlEvent::Start(ref e) => match e.local_name().as_ref() {
                     B_PDU => {
@@ -926,6 +929,13 @@ impl<B: BufRead> Reader<B> {
                     }
                     _x => {}
                 },
+                #[cfg(feature = "verif-hooks")]
+                XmlEvent::Eof => {
+                    crate::verif_hooks::FIBEX_EOF_RETURNS
+                        .fetch_add(1, std::sync::atomic::Ordering::Relaxed);
+                    return Ok(Event::Eof);
+                }
+                #[cfg_attr(feature = "verif-hooks", allow(unreachable_patterns))]
                 XmlEvent::Eof => return Ok(Event::Eof),
                 _x => {
                     // trace!("XmlEvent::* unknown ({:?})", _x);
